@@ -391,8 +391,8 @@ func recheck(oracle string, ops, res []string) (bool, string) {
 }
 
 // classify names the known-finding class: the negation of a hypothesis of the
-// partial theorem of the clause (Props/C06.lean): terminates — AliasFree (and
-// BundleFree); E1, T2 — AliasFree; E2 — OptPlain, AliasFree; E4 — LatestLast, AliasFree.
+// partial theorem of the clause (Props/C06.lean): terminates — AliasFree, BundleFree,
+// NoConflictCycle; E1, T2 — AliasFree; E2 — OptPlain, AliasFree; E4 — LatestLast, AliasFree.
 func classify(oracle string, ops, res []string) string {
 	if len(ops) != 1 {
 		return ""
@@ -412,6 +412,13 @@ func classify(oracle string, ops, res []string) string {
 		}
 		if !h.BundleFree {
 			return "F-C04-npm-bundle-cycle"
+		}
+		if cd, err := decodeCase(ops[0], res[0]); err == nil {
+			for i, v := range cd.u.Versions {
+				if v.Name == cd.root[0] && v.Version == cd.root[1] && i < len(h.ConflictCycle) && h.ConflictCycle[i] {
+					return "F-C06-conflict-cycle"
+				}
+			}
 		}
 	case "E4":
 		if !h.LatestLast {
